@@ -6,7 +6,9 @@ use) exposes hash-map/hash-set iteration order or reads ambient state (clocks,
 environment, randomness), except iterators immediately consumed by an
 order-insensitive reduction; (TYPE) the DAG and history containers are ordered
 maps/sets; (REQ) the evaluation order comparator is total (timestamp, then the
-unique entry id).  Not decided: independence from tip enumeration order as a
+unique entry id); (WORKLIST) the graph walks on the evaluation path (ChangeGraph::load,
+Dag::ancestors_of/descendants_of) leave their loop only when the worklist is empty,
+so no pending change is dropped.  Not decided: independence from tip enumeration order as a
 behavioural fact."""
 import re
 
@@ -77,7 +79,7 @@ def consumer(db, fn, bb, depth=0):
 def run(ctx):
     db = ctx.db
     ctx.explanation = (
-        "Decides structurally: the COB evaluation path (everything reachable from ChangeGraph::load/evaluate and every "
+        "Decides structurally: graph walks on the evaluation path drain their worklists; the COB evaluation path (everything reachable from ChangeGraph::load/evaluate and every "
         "Evaluate::init/apply inside the cob/dag/crdt code) is free of hash-iteration-order exposure and ambient state; "
         "DAG/history containers are BTree-ordered; the chronological comparator falls back to the unique id. The behavioural "
         "independence from reference/tip enumeration order is not decided as such.")
@@ -118,6 +120,18 @@ def run(ctx):
             ctx.sample({"site": rules.where(f, bb), "call": cfg.short(nme), "verdict": verdict, "why": why})
     ctx.sample({"functions_in_scope": len(fns), "order_or_ambient_sites": n})
     ctx.exhaustive = True
+
+    # WORKLIST: graph walks on the evaluation path drain their worklist (leaving the loop with pending items drops part
+    # of the change graph, and which part depends on the order the tips are enumerated in)
+    nw = 0
+    for f in sorted(fns, key=lambda x: x["key"]):
+        for hb, w, body, bad in rules.worklists(db, f):
+            nw += 1
+            key = "worklist:%s:%s" % (f["key"], f["locals"][w][1] or ("_%d" % w))
+            ctx.check(key, not bad, "the worklist `%s` is drained: the loop is left only when it is empty (or with an error); "
+                      "an early exit drops the pending changes%s" % (f["locals"][w][1] or ("_%d" % w), "" if not bad else " — exit edge bb%d->bb%d" % bad[0]),
+                      rules.where(f, bad[0][0] if bad else hb), fn=f)
+    ctx.floor("worklist:loops", nw, 3, "worklist loops on the evaluation path (ChangeGraph::load, Dag::ancestors_of, Dag::descendants_of)")
 
     # TYPE
     def field_ty(adt, field):
